@@ -123,6 +123,7 @@ class C12(Oracle):
             self.derived_seen = True
         if getattr(self, "derived_seen", False) and op[0] in MUTATORS and out.status == "ok":
             self.count("mutations_after_derivation")
+        self.no_shared_objects(w, op)
         for oid, (kind, h, val) in self.pre.items():
             if oid in self.ws:
                 continue
@@ -138,6 +139,39 @@ class C12(Oracle):
                     },
                     {"op": op[0], "changed_kind": kind},
                 )
+
+
+def _no_shared_objects(self, w, op):
+    """No bundle object is listed by two documents and no record object by two containers
+    (sharing an object *is* sharing mutable state, whatever is mutated later)."""
+    owners = {}
+    rec_owner = {}
+    for h, c in w.all_containers():
+        if c.is_document():
+            for b in c.bundles:
+                prev = owners.setdefault(id(b), h)
+                if prev != h:
+                    raise Violation(self.prop, "no-shared-objects", "bundle-in-two-documents",
+                                    {"operation": op, "documents": [prev, h],
+                                     "bundle": observe._uri(b.identifier)}, {"op": op[0]})
+                if b.document is not c:
+                    raise Violation(self.prop, "no-shared-objects", "bundle-document-pointer",
+                                    {"operation": op, "listed_by": h,
+                                     "bundle": observe._uri(b.identifier)}, {"op": op[0]})
+        for r in c.get_records():
+            prev = rec_owner.setdefault(id(r), h)
+            if prev != h:
+                raise Violation(self.prop, "no-shared-objects", "record-in-two-containers",
+                                {"operation": op, "containers": [prev, h],
+                                 "record": repr(observe.rec_obs(r))}, {"op": op[0]})
+            if r.bundle is not c:
+                raise Violation(self.prop, "no-shared-objects", "record-bundle-pointer",
+                                {"operation": op, "container": h,
+                                 "record": repr(observe.rec_obs(r))}, {"op": op[0]})
+    self.count("identity_checks")
+
+
+C12.no_shared_objects = _no_shared_objects
 
 
 def describe_change(kind, a, b):
